@@ -1382,17 +1382,21 @@ def i_POPCNT(i, fmap):
 
 def i_LZCNT(i, fmap):
     logger.verbose("%s semantic is not defined" % i.mnemonic)
-    dst, _ = i.operands
+    dst, src = i.operands
+    x = fmap(src)
     fmap[dst] = top(dst.size)
-    fmap[cf] = fmap[zf] = top(1)
+    fmap[cf] = x == 0
+    fmap[zf] = x.bit(-1)  # no leading zero
     fmap[eip] = fmap[eip] + i.length
 
 
 def i_TZCNT(i, fmap):
     logger.verbose("%s semantic is not defined" % i.mnemonic)
-    dst, _ = i.operands
+    dst, src = i.operands
+    x = fmap(src)
     fmap[dst] = top(dst.size)
-    fmap[cf] = fmap[zf] = top(1)
+    fmap[cf] = x == 0
+    fmap[zf] = x.bit(0)  # no trailing zero
     fmap[eip] = fmap[eip] + i.length
 
 
